@@ -281,6 +281,10 @@ fn names_to_ids(v: &Value) -> Value {
 }
 
 pub fn run(opts: &Opts) {
+	if opts.engine == "c02a" {
+		run_asserts(opts);
+		return;
+	}
 	let s = new_state();
 	let _g = s.enter();
 	let mut w = CaseWriter::new(&opts.out);
@@ -425,6 +429,131 @@ pub fn run(opts: &Opts) {
 		"engine":"c02","cases":w.n,"enumerated_terms":n_enum,"random_terms":n_rand,
 		"constructor_hist":{"lit":hist[0],"add":hist[1],"rm":hist[2],"plus_fields":hist[3],"vis_normal":hist[4],"vis_hidden":hist[5],"vis_unhide":hist[6],"mixin_used_twice":hist[7]},
 		"rule":"object terms over {literal with :,::,:::,+: members, a+b, objectRemoveKey}: all 2-layer chains over 2 names x 7 member kinds (+ removal variants), all 3-layer chains over 1 name with removals at each position above an extra base, seeded random terms to depth 4/5 over 3 names; observed via objectFields/All, objectHas/All, in, reads, per-layer `in super`/`super.f` probes, manifest, ==, std.length, and the layer vector via verif_core_shape"
+	});
+	w.finish(meta, &opts.out);
+}
+
+/// `c02a`: object-level assertions and object locals under inheritance, as sequences of
+/// build / read / extend steps (an assertion of an inherited layer must be checked against the
+/// FINAL object, also when the base was already read and passed its own assertions).  The
+/// reference is the definitional interpreter (`eval.run`).
+pub fn run_asserts(opts: &Opts) {
+	use crate::astjson;
+	use jrsonnet_ir::Source;
+	let env = super::c01::new_env();
+	let _g = env.state.enter();
+	let mut w = CaseWriter::new(&opts.out);
+	let mut rng = Rng::new(opts.seed ^ 0xA55E);
+	let n = if opts.thorough() { 30000 } else { 3000 };
+	let mut outcomes: std::collections::BTreeMap<String, usize> = std::collections::BTreeMap::new();
+	let mut feats = [0usize; 6];
+	for case in 0..n {
+		let nobj = 2 + rng.below(3);
+		let mut lets: Vec<String> = Vec::new();
+		let mut reads: Vec<String> = Vec::new();
+		let field = |rng: &mut Rng| -> String {
+			let name = *rng.pick(&["x", "x", "y"]);
+			let vis = *rng.pick(&[":", ":", "::", ":::"]);
+			let plus = if rng.chance(1, 6) { "+" } else { "" };
+			format!("{name}{plus}{vis} {}", rng.range(-2, 3))
+		};
+		let assertion = |rng: &mut Rng, has_super: bool| -> String {
+			let subj = match rng.below(if has_super { 5 } else { 4 }) {
+				0 => "self.x".to_string(),
+				1 => "self.y".to_string(),
+				2 => "std.length(self)".to_string(),
+				3 => "$.x".to_string(),
+				_ => "super.x".to_string(),
+			};
+			let op = *rng.pick(&[">", ">=", "<", "=="]);
+			format!("assert {subj} {op} {} : \"a{}\"", rng.range(-1, 2), rng.below(9))
+		};
+		for k in 0..nobj {
+			let lit = |rng: &mut Rng, has_super: bool, feats: &mut [usize; 6]| -> String {
+				let mut parts: Vec<String> = Vec::new();
+				if rng.chance(1, 3) {
+					feats[0] += 1;
+					// object-level local that depends on self / super
+					let dep = if has_super && rng.chance(1, 2) { "super.x" } else { "self.x" };
+					parts.push(format!("local l = {dep} + 1"));
+					parts.push("z: l".to_string());
+				}
+				if rng.chance(1, 2) {
+					feats[1] += 1;
+					parts.push(assertion(rng, has_super));
+				}
+				let nf = 1 + rng.below(2);
+				let mut seen: Vec<String> = Vec::new();
+				for _ in 0..nf {
+					let f = field(rng);
+					let nm = f.split(|c| c == '+' || c == ':').next().unwrap_or("x").to_string();
+					if !seen.contains(&nm) {
+						seen.push(nm);
+						parts.push(f);
+					}
+				}
+				format!("{{ {} }}", parts.join(", "))
+			};
+			let def = if k == 0 {
+				// the base always defines x and y so that the assertions are meaningful
+				let a = if rng.chance(2, 3) { format!("{}, ", assertion(&mut rng, false)) } else { String::new() };
+				format!("{{ {a}x: {}, y: {} }}", rng.range(-2, 3), rng.range(-2, 3))
+			} else {
+				let j = rng.below(k);
+				match rng.below(5) {
+					0 | 1 => {
+						feats[2] += 1;
+						format!("o{j} {}", lit(&mut rng, true, &mut feats))
+					}
+					2 => {
+						feats[3] += 1;
+						format!("o{j} + {}", lit(&mut rng, true, &mut feats))
+					}
+					3 => format!("{} + o{j}", lit(&mut rng, false, &mut feats)),
+					_ => {
+						feats[4] += 1;
+						let i = rng.below(k);
+						format!("o{j} + o{i}")
+					}
+				}
+			};
+			lets.push(format!("local o{k} = {def};"));
+			// reads right after the definition (so the base is read BEFORE it is extended) …
+			if rng.chance(1, 2) {
+				feats[5] += 1;
+				let what = *rng.pick(&["x", "y"]);
+				lets.push(format!("local r{k} = std.objectHasAll(o{k}, \"{what}\") && (o{k}.{what} == o{k}.{what});"));
+				reads.push(format!("r{k}"));
+			}
+		}
+		// … and reads of every object at the end
+		for k in 0..nobj {
+			match rng.below(4) {
+				0 => reads.push(format!("o{k}.x")),
+				1 => reads.push(format!("std.length(o{k})")),
+				2 => reads.push(format!("std.objectFields(o{k})")),
+				_ => reads.push(format!("o{k}")),
+			}
+		}
+		// the order in which the reads are forced is the manifestation order of the array
+		let src = format!("{} [{}]", lets.join(" "), reads.join(", "));
+		let source = Source::new_virtual("<c02a>".into(), src.as_str().into());
+		let ast = match jrsonnet_ir_parser::parse(&src, &jrsonnet_ir_parser::ParserSettings { source }) {
+			Ok(e) => astjson::expr(&e),
+			Err(_) => json!(["unsupported", "syntax error"]),
+		};
+		let ans = super::c01::run_program(&env, |s| s.evaluate_snippet("<c02a>".to_owned(), src.clone()));
+		let key = ans
+			.get("err")
+			.and_then(Value::as_str)
+			.map_or_else(|| if ans.get("ok").is_some() { "value".to_string() } else { "other".to_string() }, |c| format!("err:{c}"));
+		*outcomes.entry(key).or_default() += 1;
+		w.case(json!({"op":"eval.run","src":src,"ast":ast,"fuel":400,"size":src.len(),"case":case}), ans);
+	}
+	let meta = json!({
+		"engine":"c02a","cases":w.n,"outcome_hist":outcomes,
+		"feature_hist":{"object_locals":feats[0],"layer_asserts":feats[1],"brace_extend":feats[2],"plus_literal":feats[3],"plus_objects":feats[4],"read_before_extend":feats[5]},
+		"rule":"2-4 objects built step by step (base literal with assertion over self/$ ; later ones by `o {..}`, `o + {..}`, `{..} + o`, `o + o'` with own assertions over self/super/$ and object locals depending on self/super), reads interleaved so that a base is read before it is extended; outcome (array of reads or assertion error) vs the definitional interpreter"
 	});
 	w.finish(meta, &opts.out);
 }
